@@ -48,6 +48,20 @@ def gen(tier, seed):
             yield 'ct_arr %s %s #arr-borrow' % (bytes(a).hex(), bytes(b).hex())
         for _ in range(6):
             yield 'ct_arr %s %s #arr-random' % (rng.bytes(n).hex() or '-', rng.bytes(n).hex() or '-')
+        if n >= 2:
+            for _ in range(4):
+                i, j = rng.below(n), rng.below(n)
+                if i == j:
+                    continue
+                d = rng.rng(1, 255)
+                x = bytearray(base); x[i] ^= d; x[j] ^= d
+                yield 'ct_arr %s %s #arr-cancelling' % (base.hex(), bytes(x).hex())
+                x = bytearray(base); x[i] = (x[i] + d) & 255; x[j] = (x[j] - d) & 255
+                yield 'ct_arr %s %s #arr-cancelling' % (base.hex(), bytes(x).hex())
+                x = bytearray(base); x[i], x[j] = x[j], x[i]
+                yield 'ct_arr %s %s #arr-cancelling' % (base.hex(), bytes(x).hex())
+                yield 'ct_slice %s %s #slice-cancelling' % (base.hex(), bytes(x).hex())
+            yield 'ct_arr %s %s #arr-cancelling' % ('ff' * n, '00' * n)
     for n in list(range(0, 41)) + [64, 100, 257]:
         base = rng.bytes(n)
         yield 'ct_slice %s %s #slice-equal' % (base.hex() or '-', base.hex() or '-')
@@ -67,6 +81,28 @@ def gen(tier, seed):
                 yield '%s %s %s #u64arr-onepos' % (op, base.hex(), bytes(x).hex())
                 z = bytearray(8 * n); z[8 * pos + 7] = 0x80
                 yield '%s %s %s #u64arr-zero-onepos' % (op, bytes(z).hex(), bytes(8 * n).hex())
+            if n >= 2:
+                # differences in several limbs that cancel each other (under XOR, under addition): two limbs exchanged, the same
+                # delta in two limbs, three deltas with d0^d1^d2 == 0, all-ones against all-zeros
+                w = [int.from_bytes(base[8 * i:8 * i + 8], 'little') for i in range(n)]
+                enc = lambda ws: b''.join((x & ((1 << 64) - 1)).to_bytes(8, 'little') for x in ws).hex()
+                for _ in range(3):
+                    i, j = rng.below(n), rng.below(n)
+                    if i == j:
+                        continue
+                    x = list(w); x[i], x[j] = x[j], x[i]
+                    yield '%s %s %s #u64arr-cancelling' % (op, enc(w), enc(x))
+                    d = rng.below(1 << 64) | 1
+                    x = list(w); x[i] ^= d; x[j] ^= d
+                    yield '%s %s %s #u64arr-cancelling' % (op, enc(w), enc(x))
+                    x = list(w); x[i] += d; x[j] -= d
+                    yield '%s %s %s #u64arr-cancelling' % (op, enc(w), enc(x))
+                    if n >= 3:
+                        k = next(t for t in range(n) if t not in (i, j))
+                        d2 = rng.below(1 << 64)
+                        x = list(w); x[i] ^= d; x[j] ^= d2; x[k] ^= d ^ d2
+                        yield '%s %s %s #u64arr-cancelling' % (op, enc(w), enc(x))
+                yield '%s %s %s #u64arr-cancelling' % (op, 'ff' * (8 * n), '00' * (8 * n))
     # a Choice is also produced by negation, by array / slice / integer comparisons and by the algebra ("routes" 1..15 of the driver):
     # every consumer must treat it like the plain one
     routes = ['%s' % a if k == 0 else '%sr%d' % (a, k) for a in '01' for k in range(NROUTES)]
